@@ -711,6 +711,19 @@ def hybrid_check(ctx, libdir):
         ctx.obligation("correspondence:C14 hybrid bookkeeping", False, "driver exit %d: %s" % (r.returncode, r.stderr[-1500:]))
         return
     res = json.loads(r.stdout)
+    # library-only oracle for TRACE current_Ks: after a successful removal in mode 1/3 the live matrix must be the old
+    # matrix with row and column [index] deleted
+    for c, x in zip(cases, res):
+        if c["kind"] == "trace" and c["mode"] in (1, 3) and c["ops"] and c["ops"][0][0] == "rmi" and x["rows"][0][0] == 1:
+            n, i0, cap = c["n0"], c["ops"][0][1], c["cap"]
+            keepi = [a for a in range(n) if a != i0]
+            exp = [c["ks"][a * n + b] for a in keepi for b in keepi]
+            if x["rows"][0][7] != exp:
+                ctx.violation("trace_current_Ks_misaligned_last_removed" if i0 == n - 1 else "trace_current_Ks_reshuffle",
+                              {"state": {k: c[k] for k in ("mode", "n0", "emap", "eN", "eNact", "ks")}, "op": c["ops"][0],
+                               "current_Ks_after": x["rows"][0][7], "expected": exp}, True,
+                              "TRACE current_Ks is not the matrix with row/column %d removed after reb_simulation_remove_particle" % i0)
+                break
     texts = [coq_hcase(c, x) for c, x in zip(cases, res)]
     ctx.evaluations += sum(len(x["rows"]) for x in res)
     hdr = ("From Coq Require Import List ZArith NArith Bool.\nFrom RV Require Import C14.Model C14.Hybrid.\n"
@@ -886,7 +899,7 @@ def truncate_at(sq, k):
 def run(ctx):
     libdir = build_default(ctx)
     REBUILD[libdir] = lambda: build_default(ctx)
-    proved = ctx.prove("C14", extra_targets=["C14/Run.vo", "C14/PyLayer.vo", "C14/Hybrid.vo"])
+    proved = ctx.prove("C14", extra_targets=["C14/Run.vo", "C14/PyLayer.vo", "C14/Hybrid.vo", "C14/HybridProofs.vo"])
     rng = ctx.rng
     stable = qsort_is_stable()
     ctx.assumptions.append("platform qsort keeps equal hashes in index order (probed: %s); with an unstable qsort the exact "
